@@ -1260,6 +1260,11 @@ def stage_regen(work, tier, seed):
         for it in (fns if tier == "thorough" else rng.sample(fns, min(3, len(fns)))):
             other = rng.choice(its)
             hists.append([{"op": "edit", "name": it[1]}, {"op": "delete", "names": [list(other)]}, gen, gen])
+        # user items of every kind, in the middle of the file, then a deletion, then regeneration
+        for k, kind in enumerate(["use", "const", "impl", "mod", "macro", "fn", "type"]):
+            if tier == "thorough" or not extra or (k + len(g)) % 3 == 0:
+                hists.append([{"op": "add", "kind": kind, "name": "UserItem%d" % k, "at": (k * 3) % (len(its) + 1)},
+                              {"op": "delete", "names": [list(its[(k * 5) % len(its)])]}, gen, gen])
         # edits that change how an item LOOKS (generic parameters, attributes, doc comments,
         # visibility, an alias turned into a newtype) but not its name
         hows = ["generic", "attr", "doc", "vis", "newtype", "body"]
@@ -1276,7 +1281,7 @@ def stage_regen(work, tier, seed):
                 elif c < 0.6 and fns:
                     steps.append({"op": "edit", "name": rng.choice(fns)[1]})
                 elif c < 0.75:
-                    steps.append({"op": "add", "kind": rng.choice(["fn", "type"]),
+                    steps.append({"op": "add", "kind": rng.choice(["fn", "type", "use", "const", "impl", "mod", "macro"]),
                                   "name": rng.choice(["user_helper", "UserExtra"]) + str(len(steps)),
                                   "at": rng.randint(0, len(its))})
                 else:
